@@ -68,40 +68,8 @@ func runC07(c *engine.Ctx) {
 	}
 
 	// ---- R1 ----
-	c.Rule("R1", "the (host, path, route user) used for the credential check in ServeHTTP has the same provenance as the triple used to select the forwarding route in injectRequestInfoToCtx")
+	checkAuthRouteAgreement(c, "R1")
 	n := 0
-	for _, call := range engine.CallsTo(serve, checkAuth) {
-		args := engine.CallArgs(call) // recv, domain, location, routeUser, user, passwd
-		var fargs []ssa.Value
-		for _, inject := range injects {
-			for _, fc := range engine.CallsTo(inject, getRC) {
-				fargs = engine.CallArgs(fc) // recv, domain, location, routeUser
-			}
-		}
-		if len(args) < 6 || len(fargs) < 4 {
-			c.Undecide("pkg/util/vhost.HTTPReverseProxy.ServeHTTP>route", call.Pos(), "cannot locate the route lookups")
-			continue
-		}
-		names := []string{"host", "path", "route-user"}
-		for i := 0; i < 3; i++ {
-			n++
-			a := engine.Provenance(args[1+i], engine.ProvOpts{IntoCallee: true, Prog: p})
-			b := engine.Provenance(fargs[1+i], engine.ProvOpts{IntoCallee: true, Prog: p})
-			ka, kb := provKey(a), provKey(b)
-			c.Check(ka == kb && ka != "", "pkg/util/vhost.HTTPReverseProxy.ServeHTTP>"+names[i], call.Pos(), len(a.Values)+len(b.Values),
-				[]string{"credential check uses: " + ka, "forwarding uses:       " + kb},
-				"%s of the credential check and of the forwarding route come from the same request parts", names[i])
-		}
-		// the credentials checked belong to the user that selects the route
-		n++
-		ru := engine.Provenance(args[3], engine.ProvOpts{IntoCallee: true, Prog: p})
-		cu := engine.Provenance(args[4], engine.ProvOpts{IntoCallee: true, Prog: p})
-		cp := engine.Provenance(args[5], engine.ProvOpts{IntoCallee: true, Prog: p})
-		c.Check(provKey(ru) == provKey(cu) && provKey(cu) == provKey(cp), "pkg/util/vhost.HTTPReverseProxy.ServeHTTP>credentials", call.Pos(), 3,
-			[]string{"route user: " + provKey(ru), "checked user: " + provKey(cu), "checked password: " + provKey(cp)},
-			"the user and password that are checked come from the same header as the user that selects the route")
-	}
-	c.Floor(n, 4)
 
 	checkPoolKey(c, "R1b")
 
@@ -698,6 +666,10 @@ func runC07(c *engine.Ctx) {
 	// can miss the protected route, and "no route" means "no credential check" ----
 	c16MapsRule(c, engine.AnalyzeLocks(c.P), "R9")
 
+	// ---- R11 a queued un-register closure names the route it registered (shared with C10.R11): a protected route
+	// removed by another proxy's clean-up leaves the host unprotected or served by a less specific route ----
+	checkQueuedClosureCaptures(c, "R11")
+
 	// ---- R10 a tcpmux group checks CONNECT credentials of one kind only ----
 	c.Rule("R10", "a proxy joins an existing tcpmux group only when its httpUser and its httpPassword both equal the ones the group's route was registered with (the route checks the first member's credentials for every member)")
 	if tmgT := c.P.Named("server/group", "TCPMuxGroup"); tmgT != nil {
@@ -861,4 +833,67 @@ func unwrapBound(p *engine.Prog, f *ssa.Function) *ssa.Function {
 		}
 	}
 	return f
+}
+
+// checkAuthRouteAgreement (C07.R1, shared with C06.R14): the credential check and the forwarding route of one HTTP
+// request are selected by the same (host, path, route user), taken from the same request parts.
+func checkAuthRouteAgreement(c *engine.Ctx, rule string) {
+	p := c.P
+	serve := fn(c, "pkg/util/vhost.HTTPReverseProxy.ServeHTTP")
+	checkAuth := method(c, "pkg/util/vhost", "HTTPReverseProxy", "CheckAuth")
+	getRC := method(c, "pkg/util/vhost", "HTTPReverseProxy", "GetRouteConfig")
+	if serve == nil || checkAuth == nil || getRC == nil {
+		return
+	}
+	var injects []*ssa.Function
+	for _, f := range p.RepoFuncs() {
+		if f.Pkg == serve.Pkg && len(engine.CallsTo(f, getRC)) > 0 {
+			injects = append(injects, f)
+		}
+	}
+	if len(injects) == 0 {
+		c.Missing("pkg/util/vhost.<route selection>", "no vhost function calls GetRouteConfig")
+		return
+	}
+	c.Rule(rule, "the (host, path, route user) used for the credential check in ServeHTTP has the same provenance as the triple used to select the forwarding route in injectRequestInfoToCtx")
+	n := 0
+	for _, call := range engine.CallsTo(serve, checkAuth) {
+		args := engine.CallArgs(call) // recv, domain, location, routeUser, user, passwd
+		var fargs []ssa.Value
+		for _, inject := range injects {
+			for _, fc := range engine.CallsTo(inject, getRC) {
+				fargs = engine.CallArgs(fc) // recv, domain, location, routeUser
+			}
+		}
+		if len(args) < 6 || len(fargs) < 4 {
+			c.Undecide("pkg/util/vhost.HTTPReverseProxy.ServeHTTP>route", call.Pos(), "cannot locate the route lookups")
+			continue
+		}
+		names := []string{"host", "path", "route-user"}
+		for i := 0; i < 3; i++ {
+			n++
+			a := engine.Provenance(args[1+i], engine.ProvOpts{IntoCallee: true, Prog: p})
+			b := engine.Provenance(fargs[1+i], engine.ProvOpts{IntoCallee: true, Prog: p})
+			ka, kb := provKey(a), provKey(b)
+			if ka != kb || ka == "" {
+				// one side may receive the value the other computed (ServeHTTP passes its host / user on to the
+				// route-selecting step): compare where both come from, through parameters and helpers
+				a, b = engine.DeepSources(p, args[1+i]), engine.DeepSources(p, fargs[1+i])
+				ka, kb = provKey(a), provKey(b)
+			}
+			c.Check(ka == kb && ka != "", "pkg/util/vhost.HTTPReverseProxy.ServeHTTP>"+names[i], call.Pos(), len(a.Values)+len(b.Values),
+				[]string{"credential check uses: " + ka, "forwarding uses:       " + kb},
+				"%s of the credential check and of the forwarding route come from the same request parts", names[i])
+		}
+		// the credentials checked belong to the user that selects the route
+		n++
+		ru := engine.Provenance(args[3], engine.ProvOpts{IntoCallee: true, Prog: p})
+		cu := engine.Provenance(args[4], engine.ProvOpts{IntoCallee: true, Prog: p})
+		cp := engine.Provenance(args[5], engine.ProvOpts{IntoCallee: true, Prog: p})
+		c.Check(provKey(ru) == provKey(cu) && provKey(cu) == provKey(cp), "pkg/util/vhost.HTTPReverseProxy.ServeHTTP>credentials", call.Pos(), 3,
+			[]string{"route user: " + provKey(ru), "checked user: " + provKey(cu), "checked password: " + provKey(cp)},
+			"the user and password that are checked come from the same header as the user that selects the route")
+	}
+	c.Floor(n, 4)
+
 }
